@@ -457,8 +457,12 @@ static int choice_point(int type, int nalt, const uint8_t *altkind)
     for (int i = 1; i < nalt; i++)
         if (altkind[i] == ABTMC_B_FREE || rem[altkind[i]] > 0)
             affordable = 1;
-    if (!affordable)
+    if (!affordable) {
+        for (int i = 1; i < nalt; i++)
+            if (altkind[i] == ABTMC_B_P)
+                xr->skipped_p = 1;
         return 0;
+    }
     if (nalt > ABTMC_MAXALT)
         ENGINE_FATAL("too many alternatives (%d)", nalt);
     uint32_t idx = xr->ncp;
